@@ -189,19 +189,17 @@ func (s *Schema) ValidateData(data []byte) error {
 	)
 
 	if !bytes.HasPrefix(bytes.TrimSpace(data), []byte{'{'}) {
-		err = yaml.Unmarshal(data, &any)
+		// Convert to JSON text without going through float64: numbers
+		// keep all their digits, as they do in JSON input.
+		data, err = yaml.YAMLToJSON(data)
 		if err != nil {
 			return fmt.Errorf("failed to YAML unmarshal data for validation: %w", err)
 		}
-		data, err = json.Marshal(any)
-		if err != nil {
-			return fmt.Errorf("failed to JSON remarshal data for validation: %w", err)
-		}
-	} else {
-		// Decode for the content checks below. Syntax errors are reported
-		// by the schema validation of the same data.
-		_ = json.Unmarshal(data, &any)
 	}
+
+	// Decode for the content checks below. Syntax errors are reported
+	// by the schema validation of the same data.
+	_ = json.Unmarshal(data, &any)
 
 	if err := s.validate(schema.NewBytesLoader(data)); err != nil {
 		return err
